@@ -586,6 +586,10 @@ def run_lengths(spec: dict, rec: Recorder) -> None:
             want = der.enc_seq(der.enc_octets(data))
             if got != want:
                 rec.violation("seq-length-enc-mismatch", f"sequence with content length {len(want)}: header {got[:8].hex()} != {want[:8].hex()}", {"kind": "seqlen", "len": ln})
+    for special in ("\ufeff", "\ufeffSID", "\ufeff\ufeffx", "x\ufeff", "\ufffe", "\x00", "\x00abc", "abc\x00", "\r\n", " lead", "trail ", "\u0085", "\u2028"):
+        check_string(rec, "utf8", special)
+        check_string(rec, "gentime", special)
+        rec.case(("utf8-special", special))
     rec.sample({"kind": "lengths", "lengths": lens})
     rec.mark_exhaustive("content lengths listed in sample", True)
 
